@@ -74,7 +74,12 @@ class Run(PoolRun):
                     for e in s.truth:
                         if e['kind'] == 'enqueue-attempt':
                             att.setdefault(e['x'], []).append(e['userid'])
-                    answered = {e['x'] for e in s.truth if e['kind'] == 'p-leave' and e.get('how') != 'raise'}
+                    # answered = the target returned AND the child went on to write its result message (ordered kernel log)
+                    answered = set()
+                    for i, ev in enumerate(s.log):
+                        if ev[0] == 'p-leave' and ev[3] != 'raise':
+                            if any(e2[0] == 'write' and e2[1] == ev[1] for e2 in s.log[i + 1:i + 400]):
+                                answered.add(ev[2])
                     for x in missing:
                         if x not in att:
                             self.viol('missing-inputs-explained', 'missing-input-never-handed-to-a-worker', {'x': x, 'partial': g})
